@@ -215,13 +215,21 @@ func runC10(t testing.TB, c C10Case) (key, what string, sites map[string]int) {
 					return "HARNESS", fmt.Sprintf("%s: input never connected; notices since the request: %q", desc, win), sites
 				}
 				if ioc, err := s.OpenIO("/io", host); err == nil {
+					// both halves of the request must have been turned away before
+					// the input is released: a half that is still waiting for the
+					// broker would otherwise find it idle and attach (the halves
+					// of an /io request are admitted independently)
 					ok := s.WaitLines(Wait, func(ls []Line) bool {
+						a, b := false, false
 						for _, l := range ls {
 							if l.Seq > from && strings.Contains(l.CL.Line, "unidirectional") {
-								return true
+								a = true
+							}
+							if l.Seq > from && strings.Contains(l.CL.Line, "Rejected unexpected input side") {
+								b = true
 							}
 						}
-						return false
+						return a && b
 					})
 					ioc.Close()
 					if ok {
